@@ -3,6 +3,7 @@
 #include <stdexcept>
 #include <new>
 #include <cstdlib>
+#include <vector>
 
 extern "C" int st_ffwrite(void* f, int* status);      // cfitsio-style: status out-parameter
 extern "C" int st_ffclos(void* f, int* status);
@@ -58,3 +59,7 @@ void st_env1_ftz() { _mm_setcsr(_mm_getcsr() | 0x8040); }
 template<typename Float> Float st_pr1_narrow(const Float* a, int n) { float r = 0; for (int i = 0; i < n; i++) r += a[i]; return r; }
 template<typename Float> Float st_pr1_clean(const float* c, const Float* a, int n) { Float r = 0; for (int i = 0; i < n; i++) r += c[i] * a[i]; return r; }
 double st_pr1_use(const double* a, const float* c, int n) { return st_pr1_narrow<double>(a, n) + st_pr1_clean<double>(c, a, n); }
+
+// RE-1: scratch kept in a static local / its clean twin
+double st_re1_static(const double* a, int n) { static std::vector<double> scratch; scratch.assign(a, a + n); double r = 0; for (double v : scratch) r += v; return r; }
+double st_re1_clean(const double* a, int n) { static const double one = 1.0; std::vector<double> scratch(a, a + n); double r = 0; for (double v : scratch) r += v * one; return r; }
